@@ -457,7 +457,9 @@ class Sim:
         self.model_target = config['procs']
         self.cb_thread = None
         self.in_scan = False
-        self.exit_logpos = {}
+        self.in_deliver = False
+        self.exit_logpos = {}      # pid -> sequence number of its exit
+        self.seq = 0               # orders exits and scan starts within an op
         self.excluded = {}
         kw = dict(
             processes=config['procs'], threads=config.get('threads', True),
@@ -496,7 +498,8 @@ class Sim:
 
     def on_exit(self, proc, status):
         self.exits.append((proc.pid, status, CLOCK.now, proc.state))
-        self.exit_logpos[proc.pid] = len(self.log)
+        self.seq += 1
+        self.exit_logpos[proc.pid] = self.seq
         self.any_exit = True
         # parts this worker had taken and whose READY it never produced
         for mj in self.jobs:
@@ -623,7 +626,11 @@ class Sim:
         msg = proc.outbox.pop(0)
         proc.last_delivered = msg
         self._late_ready_msg = False
-        self._deliver_msg(msg)
+        self.in_deliver = True
+        try:
+            self._deliver_msg(msg)
+        finally:
+            self.in_deliver = False
         self.finish_callback_scan()
         if self._late_ready_msg:
             proc.late_readies += 1
@@ -730,8 +737,8 @@ class Sim:
         thread - does a scan.  If the job still looks unfinished to it, it
         blocks on the job's mutex until the callback returns."""
         if self.pool._timeout_handler is None or self.cb_thread is not None \
-                or self.in_scan or self.in_join:
-            return
+                or self.in_scan or self.in_join or not self.in_deliver:
+            return      # only for callbacks run by the result handler on a READY
         saved = CLOCK.now
         CLOCK.now += mj.opts['cbscan']
         hit = self.scan_would_hit_imap_owner()
@@ -743,7 +750,8 @@ class Sim:
         self.labels.add('scan_during_callback')
         self.cb_job = mj
         self.cb_sigpos = len(self.signals)
-        self.scan_logpos = len(self.log)
+        self.seq += 1
+        self.scan_logpos = self.seq
         self.cb_tcb = len(mj.cb['timeout'])
         self.cb_error = []
         # jobs whose result had been consumed before this scan started
@@ -1069,7 +1077,8 @@ class Sim:
         if CLOCK.hook is None:
             self.scan_resolved = set()
         self.scan_sigpos = len(self.signals)
-        self.scan_logpos = len(self.log)
+        self.seq += 1
+        self.scan_logpos = self.seq
         self.in_scan = True
         try:
             pool._timeout_handler.handle_event()
